@@ -157,26 +157,38 @@ def make_stale(out):
                     f.write(STALE_TAIL.encode() * 3)
 
 
-def run_pair(files, dirs=('src',), is_user=False, symlinks=None, stale=False, extra_dirs=()):
+def run_pair(files, dirs=('src',), is_user=False, symlinks=None, stale=False, extra_dirs=(), unpriv_default_logging=False):
     """the same materialised tree: first --dry-run (with before/after snapshot), then a normal run
     (stale: into an output directory that already holds longer files of the same names)"""
     base = fresh_dir()
+    kw, nolog = {}, ['--no-kmsg-log']
+    if unpriv_default_logging:
+        # who runs the generator and how it logs are part of the environment: an unprivileged process (every user generator) cannot open
+        # /dev/kmsg; with the default logging the normal run finds that out on its first message and must fall back to stderr
+        import tempfile
+        shutil.rmtree(base, ignore_errors=True)
+        base = tempfile.mkdtemp(prefix='qverif-pair-', dir='/tmp')
+        os.chmod(base, 0o777)
+        shutil.copy(core.BIN, os.path.join(base, 'quadlet-rs'))
+        kw, nolog = dict(as_uid=1001, binary=os.path.join(base, 'quadlet-rs')), []
     for d in dirs:
         os.makedirs(os.path.join(base, d), exist_ok=True)
     write_tree(base, files, symlinks)
+    if unpriv_default_logging:
+        subprocess.run(['chmod', '-R', 'a+rX', base])
     out = os.path.join(base, 'out')
     # extra_dirs: further entries of QUADLET_UNIT_DIRS that are not created as directories (missing, dangling links, loops, files)
     dirs_env = ':'.join(os.path.join(base, d) for d in list(dirs) + list(extra_dirs))
     before = snapshot(base)
     u = ['--user'] if is_user else []
-    rc, so, se = run_binary(['--dry-run'] + u + ['--no-kmsg-log', out], dirs_env)
+    rc, so, se = run_binary(['--dry-run'] + u + ['--no-kmsg-log', out], dirs_env, **kw)
     after = snapshot(base)
     d = dict(exit=rc, stdout=so, stderr=se, before=before, after=after)
     d['printed'], d['printed_order'] = split_dry_run(so)
     if stale:
-        run_binary(u + ['--no-kmsg-log', out], dirs_env)
+        run_binary(u + ['--no-kmsg-log', out], dirs_env, **kw)
         make_stale(out)
-    rc, so, se = run_binary(u + ['--no-kmsg-log', out], dirs_env)
+    rc, so, se = run_binary(u + nolog + [out], dirs_env, **kw)
     n = dict(exit=rc, stdout=so, stderr=se, services={}, after=snapshot(base))
     if os.path.isdir(out):
         for fn in os.listdir(out):
